@@ -763,190 +763,249 @@ Local Open Scope bool_scope.
 """
 
 
-def translate(util_src, writer_src, api_src=None):
-    """-> Gallina text of Gen/GenPaths.v"""
+def translate_units(util_src, writer_src, api_src=None, core_src=None):
+    """-> (Gallina text of Gen/GenPaths.v, [units translated], {unit that failed closed: reason}).
+    Every function is its own unit: a construct outside the fragment switches off that unit (and the units that call it) only."""
     import os
     ut = ast.parse(open(util_src).read())
     wt = ast.parse(open(writer_src).read())
     at = ast.parse(open(api_src or os.path.join(os.path.dirname(util_src), "api.py")).read())
-    out = [HEADER]
+    ct = ast.parse(open(core_src or os.path.join(os.path.dirname(util_src), "core.py")).read())
+    def u_analyse():
+        out = []
+        # ---- util.analyse_paths(file_list, root=False)
+        fd = find_def(ut, "analyse_paths")
+        params(fd, ["file_list", "root"])
+        if not (len(fd.args.defaults) == 1 and isinstance(fd.args.defaults[0], ast.Constant) and fd.args.defaults[0].value is False):
+            raise Unsupported("analyse_paths: default of root is not False")
 
-    # ---- util.analyse_paths(file_list, root=False)
-    fd = find_def(ut, "analyse_paths")
-    params(fd, ["file_list", "root"])
-    if not (len(fd.args.defaults) == 1 and isinstance(fd.args.defaults[0], ast.Constant) and fd.args.defaults[0].value is False):
-        raise Unsupported("analyse_paths: default of root is not False")
+        def ret_ap(vals, node):
+            if vals == "IndexError":
+                return "AIndexError"
+            if vals == "AssertionError":
+                return "AAssertion"
+            if len(vals) == 2 and vals[0][1] == "str" and vals[1][1] == "list str":
+                return "AOk %s %s" % (vals[0][0], vals[1][0])
+            _bad(node, "analyse_paths returns %r" % ([v[1] for v in vals],))
+        body = Fn("analyse_paths", {}).block(fd.body, {"file_list": "list str", "root": "option str"}, ret_ap)
+        out.append("(* util.analyse_paths, line %d; root : None stands for `root is False` *)\n"
+                   "Definition gen_analyse_paths (file_list : list str) (root : option str) : ares :=\n  %s.\n\n" % (fd.lineno, body))
 
-    def ret_ap(vals, node):
-        if vals == "IndexError":
-            return "AIndexError"
-        if vals == "AssertionError":
-            return "AAssertion"
-        if len(vals) == 2 and vals[0][1] == "str" and vals[1][1] == "list str":
-            return "AOk %s %s" % (vals[0][0], vals[1][0])
-        _bad(node, "analyse_paths returns %r" % ([v[1] for v in vals],))
-    body = Fn("analyse_paths", {}).block(fd.body, {"file_list": "list str", "root": "option str"}, ret_ap)
-    out.append("(* util.analyse_paths, line %d; root : None stands for `root is False` *)\n"
-               "Definition gen_analyse_paths (file_list : list str) (root : option str) : ares :=\n  %s.\n\n" % (fd.lineno, body))
+        return "".join(out)
+    def u_strip():
+        out = []
+        # ---- util._strip_path_tail(paths): {f(path) for path in paths}
+        fd = find_def(ut, "_strip_path_tail")
+        params(fd, ["paths"])
+        stmts = [s for s in fd.body if not (isinstance(s, ast.Expr) and isinstance(s.value, ast.Constant))]
+        if not (len(stmts) == 1 and isinstance(stmts[0], ast.Return) and isinstance(stmts[0].value, ast.SetComp)
+                and len(stmts[0].value.generators) == 1 and not stmts[0].value.generators[0].ifs
+                and isinstance(stmts[0].value.generators[0].target, ast.Name)
+                and isinstance(stmts[0].value.generators[0].iter, ast.Name) and stmts[0].value.generators[0].iter.id == "paths"):
+            raise Unsupported("_strip_path_tail is not a set comprehension over paths")
+        var = stmts[0].value.generators[0].target.id
+        elt = stmts[0].value.elt
 
-    # ---- util._strip_path_tail(paths): {f(path) for path in paths}
-    fd = find_def(ut, "_strip_path_tail")
-    params(fd, ["paths"])
-    stmts = [s for s in fd.body if not (isinstance(s, ast.Expr) and isinstance(s.value, ast.Constant))]
-    if not (len(stmts) == 1 and isinstance(stmts[0], ast.Return) and isinstance(stmts[0].value, ast.SetComp)
-            and len(stmts[0].value.generators) == 1 and not stmts[0].value.generators[0].ifs
-            and isinstance(stmts[0].value.generators[0].target, ast.Name)
-            and isinstance(stmts[0].value.generators[0].iter, ast.Name) and stmts[0].value.generators[0].iter.id == "paths"):
-        raise Unsupported("_strip_path_tail is not a set comprehension over paths")
-    var = stmts[0].value.generators[0].target.id
-    elt = stmts[0].value.elt
+        class FnStrip(Fn):
+            def subscript(self, e, env):       # path.rsplit("/", 1)[0]
+                v = e.value
+                if isinstance(e.slice, ast.Constant) and e.slice.value == 0 and isinstance(v, ast.Call) and isinstance(v.func, ast.Attribute) \
+                        and v.func.attr == "rsplit" and len(v.args) == 2 and isinstance(v.args[0], ast.Constant) \
+                        and isinstance(v.args[1], ast.Constant) and v.args[1].value == 1:
+                    a, ta = self.E(v.func.value, env)
+                    if ta != "str":
+                        _bad(e, "rsplit of %s" % ta)
+                    return "(py_rsplit1_head %s %s)" % (chr_const(v.args[0].value, e), a), "str"
+                return Fn.subscript(self, e, env)
+        t, ty = FnStrip("_strip_path_tail", {}).E(elt, {var: "str"})
+        if ty != "str":
+            raise Unsupported("_strip_path_tail element of type %s" % ty)
+        out.append("(* util._strip_path_tail, line %d: the element of the set comprehension *)\n"
+                   "Definition gen_strip_tail (%s : str) : str :=\n  %s.\n\n" % (fd.lineno, ident(var), t))
 
-    class FnStrip(Fn):
-        def subscript(self, e, env):       # path.rsplit("/", 1)[0]
-            v = e.value
-            if isinstance(e.slice, ast.Constant) and e.slice.value == 0 and isinstance(v, ast.Call) and isinstance(v.func, ast.Attribute) \
-                    and v.func.attr == "rsplit" and len(v.args) == 2 and isinstance(v.args[0], ast.Constant) \
-                    and isinstance(v.args[1], ast.Constant) and v.args[1].value == 1:
-                a, ta = self.E(v.func.value, env)
-                if ta != "str":
-                    _bad(e, "rsplit of %s" % ta)
-                return "(py_rsplit1_head %s %s)" % (chr_const(v.args[0].value, e), a), "str"
-            return Fn.subscript(self, e, env)
-    t, ty = FnStrip("_strip_path_tail", {}).E(elt, {var: "str"})
-    if ty != "str":
-        raise Unsupported("_strip_path_tail element of type %s" % ty)
-    out.append("(* util._strip_path_tail, line %d: the element of the set comprehension *)\n"
-               "Definition gen_strip_tail (%s : str) : str :=\n  %s.\n\n" % (fd.lineno, ident(var), t))
+        return "".join(out)
+    def u_booltexts():
+        out = []
+        # ---- util.val_from_meta: inventories (the dispatch itself is numpy's: hand model + correspondence)
+        fd = find_def(ut, "val_from_meta")
+        params(fd, ["x", "meta"])
+        lit = None
+        for n in ast.walk(fd):
+            if isinstance(n, ast.If) and same_expr(n.test, "t == 'bool'") and len(n.body) == 1 and isinstance(n.body[0], ast.Return) \
+                    and isinstance(n.body[0].value, ast.Compare) and len(n.body[0].value.ops) == 1 and isinstance(n.body[0].value.ops[0], ast.In) \
+                    and same_expr(n.body[0].value.left, "x") and isinstance(n.body[0].value.comparators[0], ast.List):
+                lit = n.body[0].value.comparators[0]
+        if lit is None:
+            raise Unsupported("val_from_meta: `if t == 'bool': return x in [...]` not found")
+        texts = []
+        for e in lit.elts:       # x is a text: only the text members can be equal to it (True == 1 == "1" is false for a str)
+            if not isinstance(e, ast.Constant) or not isinstance(e.value, (str, bool, int)):
+                _bad(e, "member of the bool literal list")
+            if isinstance(e.value, str):
+                texts.append(str_const(e.value, e))
+        out.append("(* util.val_from_meta, line %d: the texts the bool branch reads as True *)\n"
+                   "Definition gen_bool_true_texts : list str := [%s].\n\n" % (lit.lineno, "; ".join(texts)))
 
-    # ---- util.val_from_meta: inventories (the dispatch itself is numpy's: hand model + correspondence)
-    fd = find_def(ut, "val_from_meta")
-    params(fd, ["x", "meta"])
-    lit = None
-    for n in ast.walk(fd):
-        if isinstance(n, ast.If) and same_expr(n.test, "t == 'bool'") and len(n.body) == 1 and isinstance(n.body[0], ast.Return) \
-                and isinstance(n.body[0].value, ast.Compare) and len(n.body[0].value.ops) == 1 and isinstance(n.body[0].value.ops[0], ast.In) \
-                and same_expr(n.body[0].value.left, "x") and isinstance(n.body[0].value.comparators[0], ast.List):
-            lit = n.body[0].value.comparators[0]
-    if lit is None:
-        raise Unsupported("val_from_meta: `if t == 'bool': return x in [...]` not found")
-    texts = []
-    for e in lit.elts:       # x is a text: only the text members can be equal to it (True == 1 == "1" is false for a str)
-        if not isinstance(e, ast.Constant) or not isinstance(e.value, (str, bool, int)):
-            _bad(e, "member of the bool literal list")
-        if isinstance(e.value, str):
-            texts.append(str_const(e.value, e))
-    out.append("(* util.val_from_meta, line %d: the texts the bool branch reads as True *)\n"
-               "Definition gen_bool_true_texts : list str := [%s].\n\n" % (lit.lineno, "; ".join(texts)))
+        return "".join(out)
+    def u_fastrel():
+        out = []
+        # ---- util.metadata_from_many, fast path: rg.columns[0].file_path = <f>[len(basepath):].lstrip("/")
+        fd = find_def(ut, "metadata_from_many")
+        rels = []
+        for n in ast.walk(fd):
+            if isinstance(n, ast.Assign) and len(n.targets) == 1 and ast.unparse(n.targets[0]) == "rg.columns[0].file_path":
+                if not (isinstance(n.value, ast.Call) and isinstance(n.value.func, ast.Attribute) and n.value.func.attr == "lstrip"):
+                    _bad(n, "first-chunk path of the fast path that is not of the form f[len(basepath):].lstrip('/')")
+                names = sorted({x.id for x in ast.walk(n.value) if isinstance(x, ast.Name)} - {"len", "basepath"})
+                if len(names) != 1:
+                    _bad(n, "relative path of the fast path")
+                class Ren(ast.NodeTransformer):
+                    def visit_Name(self, node, old=names[0]):
+                        return ast.copy_location(ast.Name(id="f", ctx=node.ctx), node) if node.id == old else node
+                import copy
+                t, ty = Fn("metadata_from_many", {}).E(Ren().visit(copy.deepcopy(n.value)), {"basepath": "str", "f": "str"})
+                rels.append((t, ty, n.lineno))
+        if not rels or any(r[1] != "str" for r in rels) or len({r[0] for r in rels}) != 1:
+            raise Unsupported("metadata_from_many: the fast path's relative-path expressions not found or not all alike: %r" % (rels,))
+        out.append("(* util.metadata_from_many, lines %s: first-chunk path of a row group of file f on the footer fast path *)\n"
+                   "Definition gen_fast_rel (basepath f : str) : str :=\n  %s.\n\n" % (", ".join(str(r[2]) for r in rels), rels[0][0]))
 
-    # ---- util.metadata_from_many, fast path: rg.columns[0].file_path = <f>[len(basepath):].lstrip("/")
-    fd = find_def(ut, "metadata_from_many")
-    rels = []
-    for n in ast.walk(fd):
-        if isinstance(n, ast.Assign) and len(n.targets) == 1 and ast.unparse(n.targets[0]) == "rg.columns[0].file_path":
-            if not (isinstance(n.value, ast.Call) and isinstance(n.value.func, ast.Attribute) and n.value.func.attr == "lstrip"):
-                _bad(n, "first-chunk path of the fast path that is not of the form f[len(basepath):].lstrip('/')")
-            names = sorted({x.id for x in ast.walk(n.value) if isinstance(x, ast.Name)} - {"len", "basepath"})
-            if len(names) != 1:
-                _bad(n, "relative path of the fast path")
-            class Ren(ast.NodeTransformer):
-                def visit_Name(self, node, old=names[0]):
-                    return ast.copy_location(ast.Name(id="f", ctx=node.ctx), node) if node.id == old else node
-            import copy
-            t, ty = Fn("metadata_from_many", {}).E(Ren().visit(copy.deepcopy(n.value)), {"basepath": "str", "f": "str"})
-            rels.append((t, ty, n.lineno))
-    if not rels or any(r[1] != "str" for r in rels) or len({r[0] for r in rels}) != 1:
-        raise Unsupported("metadata_from_many: the fast path's relative-path expressions not found or not all alike: %r" % (rels,))
-    out.append("(* util.metadata_from_many, lines %s: first-chunk path of a row group of file f on the footer fast path *)\n"
-               "Definition gen_fast_rel (basepath f : str) : str :=\n  %s.\n\n" % (", ".join(str(r[2]) for r in rels), rels[0][0]))
+        return "".join(out)
+    def u_SECTION():
+        out = []
+        # ---- the functions over partition values live in a section over the external conversions
+        out.append("Section GenValues.\n  Variables F T D : Type.\n  Variable show_float : F -> str.\n  Variable show_time_iso : T -> str.\n"
+                   "  Variable show_time_str : T -> str.\n  Variable parse_float : bool -> str -> option F.\n"
+                   "  Variable parse_time_pd : str -> option T.\n  Variable parse_delta : str -> option D.\n"
+                   "  Notation value := (Partition.value F T D).\n"
+                   "  Notation py_str := (PyPaths.py_str F T D show_float show_time_iso show_time_str).\n"
+                   "  Notation py_isoformat := (PyPaths.py_isoformat F T D show_time_iso).\n"
+                   "  Notation py_is_timestamp := (PyPaths.py_is_timestamp F T D).\n\n")
 
-    # ---- the functions over partition values live in a section over the external conversions
-    out.append("Section GenValues.\n  Variables F T D : Type.\n  Variable show_float : F -> str.\n  Variable show_time_iso : T -> str.\n"
-               "  Variable show_time_str : T -> str.\n  Variable parse_float : bool -> str -> option F.\n"
-               "  Variable parse_time_pd : str -> option T.\n  Variable parse_delta : str -> option D.\n"
-               "  Notation value := (Partition.value F T D).\n"
-               "  Notation py_str := (PyPaths.py_str F T D show_float show_time_iso show_time_str).\n"
-               "  Notation py_isoformat := (PyPaths.py_isoformat F T D show_time_iso).\n"
-               "  Notation py_is_timestamp := (PyPaths.py_is_timestamp F T D).\n\n")
+        return "".join(out)
+    def u_pathstring():
+        out = []
+        # ---- util.path_string(o)
+        fd = find_def(ut, "path_string")
+        params(fd, ["o"])
 
-    # ---- util.path_string(o)
-    fd = find_def(ut, "path_string")
-    params(fd, ["o"])
+        def ret_str(vals, node):
+            if isinstance(vals, list) and len(vals) == 1 and vals[0][1] == "str":
+                return vals[0][0]
+            _bad(node, "path_string returns %r" % (vals,))
+        body = Fn("path_string", {}).block(fd.body, {"o": "value"}, ret_str)
+        out.append("  (* util.path_string, line %d *)\n  Definition gen_path_string (o : value) : str :=\n  %s.\n\n" % (fd.lineno, body))
 
-    def ret_str(vals, node):
-        if isinstance(vals, list) and len(vals) == 1 and vals[0][1] == "str":
-            return vals[0][0]
-        _bad(node, "path_string returns %r" % (vals,))
-    body = Fn("path_string", {}).block(fd.body, {"o": "value"}, ret_str)
-    out.append("  (* util.path_string, line %d *)\n  Definition gen_path_string (o : value) : str :=\n  %s.\n\n" % (fd.lineno, body))
+        return "".join(out)
+    def u_valtonum():
+        out = []
+        # ---- util._val_to_num(x): x is a text (the `isinstance(x, numbers.Real)` exit concerns non-texts and is skipped)
+        fd = find_def(ut, "_val_to_num")
+        params(fd, ["x"])
+        stmts = list(fd.body)
+        if stmts and isinstance(stmts[0], ast.If) and ast.unparse(stmts[0].test) == "isinstance(x, numbers.Real)" \
+                and len(stmts[0].body) == 1 and isinstance(stmts[0].body[0], ast.Return) and ast.unparse(stmts[0].body[0].value) == "x" \
+                and not stmts[0].orelse:
+            stmts = stmts[1:]
 
-    # ---- util._val_to_num(x): x is a text (the `isinstance(x, numbers.Real)` exit concerns non-texts and is skipped)
-    fd = find_def(ut, "_val_to_num")
-    params(fd, ["x"])
-    stmts = list(fd.body)
-    if stmts and isinstance(stmts[0], ast.If) and ast.unparse(stmts[0].test) == "isinstance(x, numbers.Real)" \
-            and len(stmts[0].body) == 1 and isinstance(stmts[0].body[0], ast.Return) and ast.unparse(stmts[0].body[0].value) == "x" \
-            and not stmts[0].orelse:
-        stmts = stmts[1:]
+        def ret_val(vals, node):
+            if isinstance(vals, list) and len(vals) == 1:
+                t, ty = vals[0]
+                if ty == "value":
+                    return t
+                if ty == "str":
+                    return "VStr %s" % t
+                if ty == "bool":
+                    return "VBool %s" % t
+            _bad(node, "_val_to_num returns %r" % (vals,))
+        body = Fn("_val_to_num", {}).block(stmts, {"x": "str"}, ret_val)
+        out.append("  (* util._val_to_num, line %d *)\n  Definition gen_val_to_num (x : str) : value :=\n  %s.\n\n" % (fd.lineno, body))
 
-    def ret_val(vals, node):
-        if isinstance(vals, list) and len(vals) == 1:
-            t, ty = vals[0]
-            if ty == "value":
-                return t
-            if ty == "str":
-                return "VStr %s" % t
-            if ty == "bool":
-                return "VBool %s" % t
-        _bad(node, "_val_to_num returns %r" % (vals,))
-    body = Fn("_val_to_num", {}).block(stmts, {"x": "str"}, ret_val)
-    out.append("  (* util._val_to_num, line %d *)\n  Definition gen_val_to_num (x : str) : value :=\n  %s.\n\n" % (fd.lineno, body))
+        return "".join(out)
+    def u_naming():
+        out = []
+        # ---- writer.partition_on_columns: the naming statements
+        fd = find_def(wt, "partition_on_columns")
+        path_if, relname = None, None
+        for n in ast.walk(fd):
+            if isinstance(n, ast.If) and isinstance(n.test, ast.Name) and n.test.id == "with_field" and len(n.body) == 1 and len(n.orelse) == 1 \
+                    and all(isinstance(b, ast.Assign) and len(b.targets) == 1 and isinstance(b.targets[0], ast.Name) and b.targets[0].id == "path"
+                            for b in (n.body[0], n.orelse[0])):
+                path_if = n
+            if isinstance(n, ast.Assign) and len(n.targets) == 1 and isinstance(n.targets[0], ast.Name) and n.targets[0].id == "relname":
+                relname = n
+        if path_if is None or relname is None:
+            raise Unsupported("partition_on_columns: `if with_field: path = ... else: path = ...` / `relname = ...` not found")
+        funcs = {"path_string": ("gen_path_string", ["value"], "str")}
+        env = {"with_field": "bool", "columns": "list str", "key": "list value"}
+        a, ta = Fn("partition_on_columns", funcs).E(path_if.body[0].value, env)
+        b, tb = Fn("partition_on_columns", funcs).E(path_if.orelse[0].value, env)
+        if ta != "str" or tb != "str":
+            raise Unsupported("partition_on_columns: path of type %s / %s" % (ta, tb))
+        out.append("  (* writer.partition_on_columns, line %d: directory of a key *)\n"
+                   "  Definition gen_dir_path (with_field : bool) (columns : list str) (key : list value) : str :=\n"
+                   "  if with_field then %s\n  else %s.\n\n" % (path_if.lineno, a, b))
+        r, tr_ = Fn("partition_on_columns", funcs).E(relname.value, {"path": "str", "partname": "str"})
+        if tr_ != "str":
+            raise Unsupported("partition_on_columns: relname of type %s" % tr_)
+        out.append("  (* writer.partition_on_columns, line %d *)\n  Definition gen_relname (path partname : str) : str :=\n  %s.\n"
+                   % (relname.lineno, r))
+        return "".join(out)
+    def u_cats():
+        out = []
+        # ---- api.paths_to_cats(paths, partition_meta=None)
+        fd = find_def(at, "paths_to_cats")
+        params(fd, ["paths", "partition_meta"])
+        pd_ = find_def(at, "_path_to_cats")
+        params(pd_, ["paths", "parts", "file_scheme", "partition_meta"])
+        dfl = pd_.args.defaults
+        if not (len(dfl) == 2 and isinstance(dfl[0], ast.Constant) and dfl[0].value in ("hive", "drill") and isinstance(dfl[1], ast.Constant) and dfl[1].value is None):
+            raise Unsupported("_path_to_cats: defaults of file_scheme / partition_meta")
+        first = [x for x in pd_.body if not (isinstance(x, ast.Expr) and isinstance(x.value, ast.Constant))][0]
+        if ast.unparse(first) != "partition_meta = partition_meta or {}":
+            raise Unsupported("_path_to_cats does not start with `partition_meta = partition_meta or {}`")
+        out.append("\n" + translate_path_to_cats(pd_))
+        body = FnCats("paths_to_cats", dfl[0].value).block(fd.body, {"paths": "list str", "partition_meta": "meta"}, None)
+        out.append("\n  (* api.paths_to_cats, line %d.  path_to_cats_ hive? metadata zip(paths, parts) stands for api._path_to_cats; dirs for the elements of\n"
+                   "     the set _strip_path_tail(paths) in iteration order; a missing file_path (None) is the empty text *)\n"
+                   "  Notation cats := (list (str * list value)).\n  Notation meta := (list (str * kind)).\n"
+                   "  Definition gen_paths_to_cats (path_to_cats_ : bool -> meta -> list (str * list str) -> res cats)\n"
+                   "      (partition_meta : meta) (paths : list str) (dirs : list str) : res (scheme * cats) :=\n  %s.\n" % (fd.lineno, body))
 
-    # ---- writer.partition_on_columns: the naming statements
-    fd = find_def(wt, "partition_on_columns")
-    path_if, relname = None, None
-    for n in ast.walk(fd):
-        if isinstance(n, ast.If) and isinstance(n.test, ast.Name) and n.test.id == "with_field" and len(n.body) == 1 and len(n.orelse) == 1 \
-                and all(isinstance(b, ast.Assign) and len(b.targets) == 1 and isinstance(b.targets[0], ast.Name) and b.targets[0].id == "path"
-                        for b in (n.body[0], n.orelse[0])):
-            path_if = n
-        if isinstance(n, ast.Assign) and len(n.targets) == 1 and isinstance(n.targets[0], ast.Name) and n.targets[0].id == "relname":
-            relname = n
-    if path_if is None or relname is None:
-        raise Unsupported("partition_on_columns: `if with_field: path = ... else: path = ...` / `relname = ...` not found")
-    funcs = {"path_string": ("gen_path_string", ["value"], "str")}
-    env = {"with_field": "bool", "columns": "list str", "key": "list value"}
-    a, ta = Fn("partition_on_columns", funcs).E(path_if.body[0].value, env)
-    b, tb = Fn("partition_on_columns", funcs).E(path_if.orelse[0].value, env)
-    if ta != "str" or tb != "str":
-        raise Unsupported("partition_on_columns: path of type %s / %s" % (ta, tb))
-    out.append("  (* writer.partition_on_columns, line %d: directory of a key *)\n"
-               "  Definition gen_dir_path (with_field : bool) (columns : list str) (key : list value) : str :=\n"
-               "  if with_field then %s\n  else %s.\n\n" % (path_if.lineno, a, b))
-    r, tr_ = Fn("partition_on_columns", funcs).E(relname.value, {"path": "str", "partname": "str"})
-    if tr_ != "str":
-        raise Unsupported("partition_on_columns: relname of type %s" % tr_)
-    out.append("  (* writer.partition_on_columns, line %d *)\n  Definition gen_relname (path partname : str) : str :=\n  %s.\n"
-               % (relname.lineno, r))
-    # ---- api.paths_to_cats(paths, partition_meta=None)
-    fd = find_def(at, "paths_to_cats")
-    params(fd, ["paths", "partition_meta"])
-    pd_ = find_def(at, "_path_to_cats")
-    params(pd_, ["paths", "parts", "file_scheme", "partition_meta"])
-    dfl = pd_.args.defaults
-    if not (len(dfl) == 2 and isinstance(dfl[0], ast.Constant) and dfl[0].value in ("hive", "drill") and isinstance(dfl[1], ast.Constant) and dfl[1].value is None):
-        raise Unsupported("_path_to_cats: defaults of file_scheme / partition_meta")
-    first = [x for x in pd_.body if not (isinstance(x, ast.Expr) and isinstance(x.value, ast.Constant))][0]
-    if ast.unparse(first) != "partition_meta = partition_meta or {}":
-        raise Unsupported("_path_to_cats does not start with `partition_meta = partition_meta or {}`")
-    out.append("\n" + translate_path_to_cats(pd_))
-    body = FnCats("paths_to_cats", dfl[0].value).block(fd.body, {"paths": "list str", "partition_meta": "meta"}, None)
-    out.append("\n  (* api.paths_to_cats, line %d.  path_to_cats_ hive? metadata zip(paths, parts) stands for api._path_to_cats; dirs for the elements of\n"
-               "     the set _strip_path_tail(paths) in iteration order; a missing file_path (None) is the empty text *)\n"
-               "  Notation cats := (list (str * list value)).\n  Notation meta := (list (str * kind)).\n"
-               "  Definition gen_paths_to_cats (path_to_cats_ : bool -> meta -> list (str * list str) -> res cats)\n"
-               "      (partition_meta : meta) (paths : list str) (dirs : list str) : res (scheme * cats) :=\n  %s.\n" % (fd.lineno, body))
-    out.append("End GenValues.\n")
-    return "".join(out)
+
+
+        return "".join(out)
+
+    top = [("analyse", u_analyse, []), ("strip", u_strip, []), ("booltexts", u_booltexts, []), ("fastrel", u_fastrel, [])]
+    sec = [("pathstring", u_pathstring, []), ("valtonum", u_valtonum, []), ("naming", u_naming, ["pathstring"]), ("cats", u_cats, [])]
+    text, ok, failed = [HEADER], [], {}
+
+    def run(units):
+        for name, fn, deps in units:
+            missing = [d for d in deps if d not in ok]
+            if missing:
+                failed[name] = "needs %s, which failed closed" % ", ".join(missing)
+                continue
+            try:
+                t = fn()
+            except Unsupported as e:
+                failed[name] = str(e)
+                continue
+            text.append(t)
+            ok.append(name)
+    run(top)
+    text.append(u_SECTION())
+    run(sec)
+    text.append("End GenValues.\n")
+    return "".join(text), ok, failed
+
+
+def translate(util_src, writer_src, api_src=None):
+    """-> Gallina text of Gen/GenPaths.v; raises Unsupported when ANY unit fails (use translate_units for per-function results)"""
+    text, ok, failed = translate_units(util_src, writer_src, api_src)
+    if failed:
+        raise Unsupported("; ".join("%s: %s" % kv for kv in failed.items()))
+    return text
 
 
 if __name__ == "__main__":
